@@ -198,6 +198,9 @@ def run_cli(args, cwd):
 
 
 def make_invalid(n):
+    if n == 2:
+        # two messages that read the same: one keyword, the same offending value twice
+        return "MAP\n  NAME 'invalid'\n  SIZE 10.5 10.5\nEND\n"
     layers = "".join(f"  LAYER\n    NAME 'l{i}'\n    TYPE bogus_type\n  END\n" for i in range(n))
     return "MAP\n  NAME 'invalid'\n" + layers + "END\n"
 
